@@ -27,7 +27,7 @@ RULE = ('Hypothesis documents (profile "full": non-ASCII lyrics, quotes, commas)
         '-r (and once more with --output_path: every convertible file must still get an output of its own, beside the source or under that path): an .ekrn file appears for exactly the matching error-free files and holds exactly dumps(load(f), '
         'spine_types=["**kern"], include=BEKERN_CATEGORIES, encoding=eKern); --ekern2kern writes exactly '
         'get_kern_from_ekern(content); kern->ekern->kern->ekern returns the first ekern.  Every run also performs a '
-        'few real "python -m kernpy" subprocess invocations.  Non-trivial: CRLF or non-ASCII text present and a '
+        'few real "python -m kernpy" subprocess invocations.  The repository\'s own sample scores are taken as they lie on disk: load vs loads, dump vs dumps for four option sets, the converters vs the API.  Non-trivial: CRLF or non-ASCII text present and a '
         'directory run with >=2 matching files.')
 ASSUMPTIONS = ['UTF-8 locale (the sandbox default); _write and the converters use the locale encoding',
                'ekern inputs of --ekern2kern use LF line ends (the converter\'s own output); CRLF ekern files are read in '
@@ -343,10 +343,76 @@ def check(case):
                   key=[text, case['opts'], [text_of(f['r']) for f in case['tree']]])
 
 
+def check_real(case):
+    """a sample score of the repository, as it lies on disk (whatever line ends, encoding quirks and final newline it has):
+    load(path) == loads(its text); dump == dumps for a few option sets; the converters write what the API produces"""
+    from .. import realscores as RS
+    src = RS.path(case['real'])
+    with open(src, encoding='utf-8', newline='') as f:
+        text = f.read()
+    try:
+        d2, e2 = kp.loads(text)
+    except Exception as e:  # noqa
+        try:
+            kp.load(src)
+        except Exception as e_:  # noqa
+            if type(e_) is type(e):
+                return Result(classes=['real-score-not-importable'])
+        raise Bad('loads-raised', f'{case["real"]}: loads(text) raised {type(e).__name__}: {e}; load(file) did not raise the same')
+    try:
+        d1, e1 = kp.load(src)
+    except Exception as e:  # noqa
+        raise Bad('load-raised', f'{case["real"]}: load(file) raised {type(e).__name__}: {e}; loads(text) did not')
+    diff = SN.first_difference(SN.snapshot(d2), SN.snapshot(d1))
+    if diff:
+        raise Bad('load-differs', f'{case["real"]}: load(file) and loads(text) build different documents: {diff}')
+    if [(x.line, x.encoding) for x in e1] != [(x.line, x.encoding) for x in e2]:
+        raise Bad('load-errors-differ', f'{case["real"]}: error lists differ')
+    evals = 1
+    with tempfile.TemporaryDirectory(prefix='kv_c20r_') as td:
+        q = os.path.join(td, 'out', 'deep', 'result.krn')
+        M = len(d2.measure_start_tree_stages)
+        for kw in ({}, {'encoding': kp.Encoding.eKern, 'exclude': [TC.DECORATION]}, {'spine_types': ['**kern'], 'encoding': kp.Encoding.bEkern},
+                   {'from_measure': 1 + case['raw'][0][0] % max(M, 1), 'to_measure': M} if M else {}):
+            try:
+                exp = kp.dumps(d2, **kw)
+            except Exception:  # noqa
+                continue
+            kp.dump(d1, q, **kw)
+            evals += 1
+            if read(q) != exp:
+                raise Bad('dump-differs', f'{case["real"]}: dump({K._kwrepr(kw)}) wrote a different text than dumps returns')
+        if not e1 and kp.spine_types(d1, ['**kern']):
+            p = os.path.join(td, 'in', 'score.krn')
+            write(p, text)
+            api = expected_ekern(p)
+            rc, so, se = cli('--kern2ekern', '--input_path', p)
+            evals += 1
+            ek = os.path.join(td, 'in', 'score.ekrn')
+            if rc != 0 or not os.path.exists(ek):
+                if api is not None:
+                    raise Bad('cli-kern2ekern-failed', f'{case["real"]}: rc={rc} stderr={se[-300:]}')
+            elif read(ek) != api:
+                raise Bad('cli-kern2ekern-differs', f'{case["real"]}: the CLI wrote a different text than the API produces')
+            else:
+                back = os.path.join(td, 'in', 'back.krn')
+                rc, so, se = cli('--ekern2kern', '--input_path', ek, '--output_path', back)
+                if rc != 0 or read(back) != kp.get_kern_from_ekern(read(ek)):
+                    raise Bad('cli-ekern2kern-differs', f'{case["real"]}: rc={rc}; the CLI output differs from get_kern_from_ekern')
+    return Result(nontrivial=len(text) > 500, evals=evals, classes=['real-score'] + (['real-score-with-import-errors'] if e1 else []) + (['CRLF'] if '\r\n' in text else []),
+                  sample={'file': case['real']}, key=['real', case['real'], case['raw'][0]])
+
+
 def run(ctx):
+    from .. import realscores as RS
+    rc_ = RS.cases(max_bytes=16000, nranges=1)
+    if rc_ is not None:
+        ctx.run_hypothesis(rc_, check_real, max_examples=max(3, (16 if ctx.quick else 300) // ctx.nshards), salt=9, label='real-scores')
     ctx.run_hypothesis(cases(), check, max_examples=28 if ctx.quick else 700, label='files')
     ctx.run_hypothesis(cases().map(lambda c: dict(c, subprocess=True)), check, max_examples=1 if ctx.quick else 6, salt=1, label='subprocess')
 
 
 def replay(case):
+    if 'real' in case:
+        return check_real(case)
     return check(case)
